@@ -859,3 +859,91 @@ def own_cases(rng, n):
                                        "odrop", "odropsub(%d)" % rng.randrange(3), "dropdiffs")))
         cases.append(head + " :: " + " ; ".join(ops))
     return cases
+
+
+# ---------------------------------------------------------------- aobs (C16, guards held across calls)
+def aobs_exhaustive(maxlen, nsubs):
+    """every history of <= maxlen calls over write/read/set/get/next/next_ref/stream/next_now plus
+    gset/gdrop on the guards obtained earlier; all guards still held are dropped at the end."""
+    cases = []
+    base = ["write", "read", "set", "get"]
+    for k in range(nsubs):
+        base += ["next(%d)" % k, "next_ref(%d)" % k, "stream(%d)" % k, "next_now(%d)" % k]
+
+    def finish(ops, wg, rg):
+        tail = ["gdrop(%d)" % g for g in sorted(wg + rg)]
+        cases.append("%d :: %s" % (nsubs, " ; ".join(ops + tail)))
+
+    def rec(ops, wg, rg):
+        if ops:
+            finish(ops, wg, rg)
+        if len(ops) == maxlen:
+            return
+        i = len(ops)
+        for b in base:
+            if b == "set":
+                rec(ops + ["set(%d)" % (i + 1)], wg, rg)
+            elif b == "write":
+                rec(ops + [b], wg + [i], rg)
+            elif b == "read":
+                rec(ops + [b], wg, rg + [i])
+            else:
+                rec(ops + [b], wg, rg)
+        for g in wg:
+            rec(ops + ["gset(%d,%d)" % (g, i + 1)], wg, rg)
+            rec(ops + ["gdrop(%d)" % g], [x for x in wg if x != g], rg)
+        for g in rg:
+            rec(ops + ["gdrop(%d)" % g], wg, [x for x in rg if x != g])
+
+    rec([], [], [])
+    return cases
+
+
+def aobs_random(rng, n, minlen=8, maxlen=30):
+    cases = []
+    for _ in range(n):
+        nsubs = rng.randrange(1, 4)
+        ops, wg, rg = [], [], []
+        for i in range(rng.randrange(minlen, maxlen)):
+            r = rng.random()
+            if r < 0.12:
+                ops.append("write"); wg.append(i)
+            elif r < 0.2:
+                ops.append("read"); rg.append(i)
+            elif r < 0.35:
+                ops.append("set(%d)" % (i + 1))
+            elif r < 0.4:
+                ops.append("get")
+            elif r < 0.7:
+                ops.append("%s(%d)" % (rng.choice(("next", "next_ref", "stream", "next_now", "next", "next_ref")), rng.randrange(nsubs)))
+            elif r < 0.82 and wg:
+                ops.append("gset(%d,%d)" % (rng.choice(wg), i + 1))
+            elif wg or rg:
+                g = rng.choice(wg + rg)
+                ops.append("gdrop(%d)" % g)
+                wg = [x for x in wg if x != g]; rg = [x for x in rg if x != g]
+            else:
+                ops.append("set(%d)" % (i + 1))
+        if rng.random() < 0.9:
+            ops += ["gdrop(%d)" % g for g in sorted(wg + rg)]
+        cases.append("%d :: %s" % (nsubs, " ; ".join(ops)))
+    return cases
+
+
+def aobs_sandwich(nsubs=1):
+    """write ; X ; Y ; gset ; gdrop ; Z ; W  for all calls X Y Z W: futures queued behind a held write
+    guard (in both orders), an update through the guard, release, and two follow-up calls."""
+    base = ["write", "read", "set(%d)", "get"]
+    for k in range(nsubs):
+        base += ["next(%d)" % k, "next_ref(%d)" % k, "stream(%d)" % k, "next_now(%d)" % k]
+    cases = []
+    for x in base:
+        for y in base:
+            for z in base:
+                for w in base:
+                    ops = ["write", x, y, "gset(0,40)", "gdrop(0)", z, w]
+                    ops = [o % (i + 1) if "%d" in o and o.startswith("set") else o for i, o in enumerate(ops)]
+                    held = [i for i, o in enumerate(ops) if o in ("write", "read") and i != 0]
+                    ops += ["gdrop(%d)" % g for g in held]
+                    cases.append("%d :: %s" % (nsubs, " ; ".join(ops)))
+    return cases
